@@ -433,3 +433,38 @@ func VH_C17_same_type_twice() {
 		vAssert("C17.twice.upper_on_every_occurrence", g.Home != nil && g.Work != nil && g.Home.City == "PARIS" && g.Work.City == "LYON" && g.Alt.City == "NICE")
 	}
 }
+
+// VH_C17_shape_diverged: the guard does not depend on the health of the
+// directory.  The struct changed AND the files disagree with the index (what
+// a crash leaves: a stray un-indexed file, or an indexed object whose file
+// is gone): every call, the first and the later ones, is refused with the
+// structure-changed class and nothing on disk is touched.
+func VH_C17_shape_diverged() {
+	root := vTempDir()
+	uuid := vhGuardBuild(root)
+	dir := root + "/sod.vGuard"
+	switch vChoice("diverge", 3) {
+	case 0: // a stray well-formed object file
+		vAssert("C17.div.copy", vCopyFile(dir+"/"+uuid+".json", dir+"/aaaaaaaa-aaaa-4aaa-8aaa-aaaaaaaaaaaa.json"))
+	case 1: // the indexed object's file is missing
+		vRemoveFile(dir + "/" + uuid + ".json")
+	case 2: // both
+		vAssert("C17.div.copy", vCopyFile(dir+"/"+uuid+".json", dir+"/aaaaaaaa-aaaa-4aaa-8aaa-aaaaaaaaaaaa.json"))
+		vRemoveFile(dir + "/" + uuid + ".json")
+	}
+	before := vFsFingerprint(root)
+	db := Open(root)
+	changed := func(err error) bool {
+		return errors.Is(err, ErrStructureChanged)
+	}
+	type vGuard struct {
+		Item
+		A int64  `sod:"index"`
+		B string `sod:"index"`
+		C int64
+	}
+	mk := func() Object { return &vGuard{C: 1} }
+	vhGuardOps(db, mk, uuid, changed, "C17.div.first")
+	vhGuardOps(db, mk, uuid, changed, "C17.div.later")
+	vAssert("C17.div.files_untouched", vFsFingerprint(root) == before)
+}
